@@ -1068,66 +1068,98 @@ class MacroTie:
     rule against the real exported lines when the line structure corresponds) and the result of running the
     model script with the C01 checker model."""
 
+    # real macro name -> model entries fed by its invocations
+    ROUTES = {"trivial": ["trivial"], "intros": ["intros", "intros_vars"],
+              "apply_theorem": ["apply_theorem", "apply_theorem_svars"], "apply_theorem_for": ["apply_theorem_for"],
+              "forall_elim_gen": ["forall_elim_gen"], "apply_fact_for": ["apply_fact_for"]}
+
     def __init__(self, ctx, impl, limit):
         self.ctx, self.impl, self.limit = ctx, impl, limit
         self.lines, self.expect = [], []
-        self.n = {"trivial": 0, "intros": 0, "apply_theorem": 0}
+        self.n = {k: 0 for ks in self.ROUTES.values() for k in ks}
+        self.nfail = {k: 0 for k in self.n}
+        self.t_add = 0.0
 
     def maybe_add(self, name, args, ths, th_eval):
-        if name not in self.n or self.n[name] >= self.limit:
-            return
+        """th_eval = the sequent the real eval reported, or None when the real eval raised (near-miss inputs of the
+        directed stream: the model evaluation must answer `none` too)."""
+        import time
+        t0 = time.time()
+        for key in self.ROUTES.get(name, ()):
+            if self.n[key] < self.limit:
+                self._add(key, name, args, ths, th_eval)
+        self.t_add += time.time() - t0
+
+    def _add(self, key, name, args, ths, th_eval):
         try:
-            rec = getattr(self, "_" + name)(args, ths)
+            rec = getattr(self, "_" + key)(args, ths, th_eval)
         except Exception:  # noqa
             return
         if rec is None:
             return
         from harness.common import kwire, sexp
-        line, npm = rec
+        line, npm, compare_run = rec
         impl = self.impl
         P, ItemID = impl.proofterm.ProofTerm, impl.proof.ItemID
-        try:
-            pt = impl.theory.global_macros[name]._c04_orig[2](args, tuple(P.atom(ItemID(i), th) for i, th in enumerate(ths)))
-            real = pt.export(ItemID(npm))
-            steps = []
-            for it in real.items:
-                prevs = []
-                for p in it.prevs:
-                    prevs.append(p.id[0] if len(p.id) == 1 else npm + p.id[-1])
-                if it.rule in ("assume", "implies_intr"):
-                    a = ["term", sexp.loads(sexp.dumps(kwire.canon_term(kwire.term_to(it.args))))]
-                elif it.rule == "theorem":
-                    a = ["name", sexp.enc(it.args)]
-                elif it.rule == "substitution":
-                    a = ["inst"]
-                elif it.args is None:
-                    a = ["none"]
-                else:
-                    a = ["other"]
-                steps.append([sexp.enc(it.rule), a, [str(x) for x in prevs]])
-        except Exception:  # noqa
-            return
-        self.n[name] += 1
+        steps = None
+        if th_eval is not None:
+            try:
+                pt = impl.theory.global_macros[name]._c04_orig[2](args, tuple(P.atom(ItemID(i), th) for i, th in enumerate(ths)))
+                real = pt.export(ItemID(npm))
+                steps = []
+                for it in real.items:
+                    prevs = []
+                    for p in it.prevs:
+                        prevs.append(p.id[0] if len(p.id) == 1 else npm + p.id[-1])
+                    if it.rule in ("assume", "implies_intr", "forall_intr", "forall_elim"):
+                        a = ["term", sexp.loads(sexp.dumps(kwire.canon_term(kwire.term_to(it.args))))]
+                    elif it.rule == "theorem":
+                        a = ["name", sexp.enc(it.args)]
+                    elif it.rule == "substitution":
+                        a = ["inst"]
+                    elif it.args is None:
+                        a = ["none"]
+                    else:
+                        a = ["other"]
+                    steps.append([sexp.enc(it.rule), a, [str(x) for x in prevs]])
+            except Exception:  # noqa
+                return
+            ev = kwire.canon_thm(kwire.thm_to(th_eval))
+        else:
+            ev = "none"
+            compare_run = False
+            self.nfail[key] += 1
+        self.n[key] += 1
         self.lines.append(line)
-        self.expect.append((name, kwire.canon_thm(kwire.thm_to(th_eval)), steps, safe_str(args)[:150]))
+        self.expect.append((key, ev, steps, compare_run, safe_str(args)[:150]))
 
-    def _trivial(self, goal, ths):
+    def _trivial(self, goal, ths, th_eval):
         from harness.common import kwire, sexp
-        if ths or goal.is_forall():
+        if ths or goal.is_forall() or th_eval is None:
             return None
-        return sexp.dumps(["macro", "trivial", kwire.term_to(goal)]), 0
+        return sexp.dumps(["macro", "trivial", kwire.term_to(goal)]), 0, True
 
-    def _intros(self, args, ths):
+    def _intros(self, args, ths, th_eval):
         from harness.common import kwire, sexp
-        if args or len(ths) < 2:
+        if args or len(ths) < 2 or th_eval is None:
             return None
         for t in ths[:-1]:
             if t.prop.is_VAR() or len(t.hyps) != 1 or t.hyps[0] != t.prop:
                 return None
-        return sexp.dumps(["macro", "intros", [kwire.thm_to(t) for t in ths]]), len(ths)
+        return sexp.dumps(["macro", "intros", [kwire.thm_to(t) for t in ths]]), len(ths), True
 
-    def _apply_theorem(self, name, ths):
+    def _intros_vars(self, args, ths, th_eval):
+        """args = [] (no exists case): `_VAR` declarations and assumptions in any order; also inputs on which the
+        real eval raises (forall_intr over a variable free in a hypothesis, a premise that is neither)"""
         from harness.common import kwire, sexp
+        if args or len(ths) < 2:
+            return None
+        return sexp.dumps(["macro", "intros_vars", [kwire.thm_to(t) for t in ths]]), len(ths), True
+
+    def _apply_theorem(self, name, ths, th_eval):
+        from harness.common import kwire, sexp
+        if th_eval is None:
+            return None
         from logic import matcher
         from kernel.term import Inst
         theory = self.impl.theory
@@ -1143,7 +1175,86 @@ class MacroTie:
         if not inst or inst.tyinst or inst.var_inst or any(v.name not in inst for v in th.prop.get_svars()):
             return None
         return sexp.dumps(["macro", "apply_theorem", sexp.enc(name), kwire.thm_to(th), kwire.inst_to(inst),
-                           [kwire.thm_to(t) for t in ths]]), len(ths)
+                           [kwire.thm_to(t) for t in ths]]), len(ths), True
+
+    def _with_inst(self, name, inst0, ths, th_eval):
+        """apply_theorem / apply_theorem_for on a first-order monomorphic theorem: the instantiation is computed as
+        the macro does (type-matching loop, then first_order_match_list started from the given instantiation);
+        schematic variables may remain"""
+        from copy import copy
+        from harness.common import kwire, sexp
+        from logic import matcher
+        from kernel.term import Inst
+        theory = self.impl.theory
+        if not isinstance(name, str) or not isinstance(inst0, Inst):
+            return None
+        th = theory.get_theorem(name)
+        if th.hyps or th.prop.get_stvars() or not matcher.is_fo_pattern(th.prop):
+            return None
+        if inst0.tyinst or inst0.var_inst or inst0.abs_name_inst:
+            return None
+        As, _ = th.prop.strip_implies()
+        if len(ths) > len(As):
+            if th_eval is not None:
+                return None
+            inst = copy(inst0)          # the macro stops before matching; the model must refuse on the count
+        else:
+            try:
+                inst = copy(inst0)
+                for v in th.prop.get_svars():
+                    if v.name in inst:
+                        v.T.match_incr(inst[v.name].get_type(), inst.tyinst)
+                inst = matcher.first_order_match_list(As[:len(ths)], [t.prop for t in ths], inst)
+            except Exception:  # noqa
+                return None             # the matcher's failure is the oracle's `none`: nothing to compare
+            if not inst or inst.tyinst or inst.var_inst or inst.abs_name_inst:
+                return None
+            As2, _ = th.prop.subst(inst).strip_implies()
+            if any(t.prop != a for t, a in zip(ths, As2)):
+                return None             # premise matched up to beta only: the expansion normalises it (not modelled)
+        return sexp.dumps(["macro", "apply_theorem_svars", sexp.enc(name), kwire.thm_to(th), kwire.inst_to(inst),
+                           kwire.inst_to(inst0), [kwire.thm_to(t) for t in ths]]), len(ths), True
+
+    def _apply_theorem_svars(self, name, ths, th_eval):
+        from kernel.term import Inst
+        return self._with_inst(name, Inst(), ths, th_eval)
+
+    def _apply_theorem_for(self, args, ths, th_eval):
+        if not isinstance(args, tuple) or len(args) != 2:
+            return None
+        return self._with_inst(args[0], args[1], ths, th_eval)
+
+    def _forall_elim_gen(self, s, ths, th_eval):
+        """evaluation modelled in both branches; the script (one forall_elim line) is the beta-normal branch"""
+        from harness.common import kwire, sexp
+        Term, Thm = self.impl.term.Term, self.impl.thm.Thm
+        if not isinstance(s, Term):
+            return None
+        normal = False
+        if th_eval is not None:
+            r = Thm.forall_elim(s, ths[0])
+            normal = r.prop.beta_norm() == r.prop
+        return sexp.dumps(["macro", "forall_elim_gen", kwire.term_to(s), [kwire.thm_to(t) for t in ths]]), len(ths), normal
+
+    def _apply_fact_for(self, args, ths, th_eval):
+        """in the model: at least one instantiation argument, the instantiated fact beta-normal, every further premise
+        literally the next assumption; inputs on which the real eval raises are sent too (model: none)"""
+        from harness.common import kwire, sexp
+        Term, Thm = self.impl.term.Term, self.impl.thm.Thm
+        if not isinstance(args, (list, tuple)) or not args or not all(isinstance(a, Term) for a in args) or not ths:
+            return None
+        if th_eval is not None:
+            th = ths[0]
+            for a in args:
+                th = Thm.forall_elim(a, th)
+            if th.prop.beta_norm() != th.prop:
+                return None
+            for prev in ths[1:]:
+                if prev.prop != th.prop.strip_implies()[0][0]:
+                    return None
+                th = Thm.implies_elim(th, prev)
+        return sexp.dumps(["macro", "apply_fact_for", [kwire.term_to(a) for a in args],
+                           [kwire.thm_to(t) for t in ths]]), len(ths), True
 
     def finish(self):
         from harness.common import kwire, sexp
@@ -1151,6 +1262,9 @@ class MacroTie:
         if not self.lines:
             ctx.coverage["macro_tie"] = dict(self.n)
             return
+        for key, k in self.n.items():
+            if k == 0:
+                ctx.log("macro tie: no input reached the model of %s" % key)
         out = ctx.lean_driver(EXE, self.lines)
         if out is None or len(out) != len(self.lines):
             ctx.broken("correspondence:c04:macro-driver", "model driver unavailable or wrong number of answers")
@@ -1159,7 +1273,7 @@ class MacroTie:
 
         def cthm(x):
             return kwire.canon_thm(x) if isinstance(x, list) and x and x[0] == "thm" else x
-        for (name, ev, steps, descr), line in zip(self.expect, out):
+        for (name, ev, steps, compare_run, descr), line in zip(self.expect, out):
             ctx.count("macro-tie:" + name)
             m = sexp.loads(line)
             bad = None
@@ -1169,9 +1283,9 @@ class MacroTie:
                 m_eval, m_script, m_run = cthm(m[1]), m[2], cthm(m[3])
                 if m_eval != ev:
                     bad = "eval: model %s, real %s" % (str(m_eval)[:200], str(ev)[:200])
-                elif m_run != ev:
+                elif compare_run and m_run != ev:
                     bad = "the model script run by the checker model ends in %s, real eval %s" % (str(m_run)[:200], str(ev)[:200])
-                elif len(m_script) == len(steps):
+                elif compare_run and steps is not None and len(m_script) == len(steps):
                     nscript += 1
                     ms = [[s[0], [s[1][0]] + ([kwire.canon_term(s[1][1])] if s[1][0] == "term" else s[1][1:]), s[2]] for s in m_script]
                     if ms != steps:
@@ -1181,8 +1295,10 @@ class MacroTie:
                 if ndis <= 3:
                     ctx.broken("correspondence:c04:macro-" + name, "%s on %s: %s" % (name, descr, bad))
                     ctx.coverage["disagreements_checked"] += 1
-        ctx.coverage["macro_tie"] = dict(self.n, scripts_compared_line_by_line=nscript, disagreements=ndis)
-        ctx.log("macro tie: %s, %d scripts compared line by line, %d disagreements" % (self.n, nscript, ndis))
+        ctx.coverage["macro_tie"] = dict(self.n, scripts_compared_line_by_line=nscript, disagreements=ndis,
+                                         real_eval_raises={k: v for k, v in self.nfail.items() if v})
+        ctx.log("macro tie: %s (real eval raises: %s), %d scripts compared line by line, %d disagreements; %.1fs preparing inputs"
+                % (self.n, {k: v for k, v in self.nfail.items() if v}, nscript, ndis, self.t_add))
 
 
 # ------------------------------------------------------------------ the oracle stream
@@ -1580,9 +1696,9 @@ def run(ctx):
     except ValueError as e:
         table = None
         ctx.broken("translate:c04:macro-registry", str(e))
-    proofs_ok = ctx.lean_props(["Holpy.C04.Props", "Holpy.C04.PropsDag", "Holpy.C04.PropsMacro"], exes=[EXE])
+    proofs_ok = ctx.lean_props(["Holpy.C04.Props", "Holpy.C04.PropsDag", "Holpy.C04.PropsMacro", "Holpy.C04.PropsMacro2"], exes=[EXE])
     if ctx.tier == "thorough" and proofs_ok:
-        ctx.lean_check_modules(["Holpy.C04.Props", "Holpy.C04.PropsDag", "Holpy.C04.PropsMacro"])
+        ctx.lean_check_modules(["Holpy.C04.Props", "Holpy.C04.PropsDag", "Holpy.C04.PropsMacro", "Holpy.C04.PropsMacro2"])
     ctx.coverage["trusted_base"] += [
         "harness/props/c04.py: recorder, mutators, generators, the comparison of eval with the checked expansion",
         "the real checker theory.check_proof at check_level=0 is the judge of expansions (its soundness is C01/C02)",
@@ -1619,6 +1735,7 @@ def run(ctx):
     # corpus first
     run_corpus(ctx, impl, oracle)
     directed_sweep(ctx, impl, oracle)
+    macro_model_stream(ctx, impl, oracle)      # before the harvest: its near-miss inputs must reach the model tie
     # (a)+(b) harvested inputs and their mutations
     impl.basic.load_metadata()
     if ctx.tier == "quick":
@@ -2581,6 +2698,136 @@ def directed_sweep(ctx, impl, oracle):
     ctx.log("directed sweep (seed-independent): %d inputs in %.1fs; findings so far: %d" % (n, time.time() - t0, len(oracle.found)))
 
 
+def macro_model_stream(ctx, impl, oracle):
+    """Inputs aimed at the macro models of lean/Holpy/C04/MacroModel2.lean (intros with `_VAR` premises,
+    apply_theorem(_for) with remaining schematic variables, forall_elim_gen, apply_fact_for): valid ones and near
+    misses (variable free in a hypothesis, premise that is neither a declaration nor an assumption, too many premises,
+    wrong number / type of instantiation arguments, premise that is not the assumption, redex-creating instances).
+    Every input goes through the property oracle; the model is compared on those where eval and expansion agree and,
+    through `maybe_add(..., None)`, on those where the real eval raises (the model evaluation must refuse too)."""
+    import time
+    from harness.common.ctx import time_limit
+    t0 = time.time()
+    try:
+        load_state(impl, "logic_base", None)
+    except Exception as e:  # noqa
+        ctx.log("macro model stream skipped: %s" % type(e).__name__)
+        return
+    from kernel.type import TFun, BoolType, TVar
+    from kernel.term import Var, SVar, Const, Forall, Implies, Lambda, Inst, And
+    _Thm = impl.thm.Thm
+
+    def Thm(hs, p):
+        return _Thm(p, tuple(hs))
+    Thm.assume, Thm.forall_elim = _Thm.assume, _Thm.forall_elim
+    rng = ctx.rng("macro-model")
+    B = BoolType
+    a, b, c, x, y = (Var(n, B) for n in "abcxy")
+    P, Q = Var("P", TFun(B, B)), Var("Q", TFun(B, B))
+    R = Var("R", TFun(B, B, B))
+    z = Var("z", TVar("a"))
+    props = [a, b, c, P(x), Q(y), R(x, y), Implies(a, b), P(a), And(a, b), Implies(P(x), Q(x)), x, y]
+    bodies = [Thm(hs, p) for p in props for hs in ([], [a], [a, b], [P(x)], [x])]
+
+    def VAR(v):
+        return Thm([], Const("_VAR", TFun(v.get_type(), B))(v))
+    good_intros = [VAR(x), VAR(y), VAR(z), Thm.assume(a), Thm.assume(b), Thm.assume(P(x)), Thm.assume(x), Thm.assume(Implies(a, b))]
+    bad_intros = [Thm([b], a), Thm([a, b], a), Thm([], a), VAR(P(x)), VAR(Lambda(x, x)), Thm([a], Const("_VAR", TFun(B, B))(x))]
+    cases = []
+    for _ in range(ctx.scale(60, 400)):
+        k = rng.randint(1, 4)
+        ins = [rng.choice(good_intros) for _ in range(k)]
+        if rng.random() < 0.35:
+            ins[rng.randrange(k)] = rng.choice(bad_intros)
+        cases.append(("intros", [], ins + [rng.choice(bodies)]))
+    # forall_elim_gen / apply_fact_for
+    f = Var("f", TFun(B, B))
+    facts = [Forall(x, P(x)), Forall(x, Forall(y, Implies(P(x), Q(y), R(x, y)))), Forall(x, Implies(x, x)),
+             Forall(f, Implies(f(a), f(b))), Forall(f, Forall(x, Implies(f(x), x))), Implies(a, b), P(x),
+             Forall(x, Forall(y, Implies(R(x, y), R(y, x)))), Forall(z, a), Forall(x, Implies(a, Forall(y, R(x, y))))]
+    insts = [a, b, P(a), x, Lambda(x, x), Lambda(x, Implies(x, a)), f, z, Implies(a, b), R(a, b)]
+    for _ in range(ctx.scale(60, 400)):
+        ft = rng.choice(facts)
+        hs = rng.choice([[], [a], [c, a]])
+        s_ = rng.choice(insts)
+        ths = [Thm(hs, ft)]
+        if rng.random() < 0.1:
+            ths = ths + [Thm([], a)] if rng.random() < 0.5 else []
+        if ths:
+            cases.append(("forall_elim_gen", s_, ths))
+    for _ in range(ctx.scale(120, 800)):
+        ft = rng.choice(facts)
+        hs = rng.choice([[], [a], [c, a]])
+        n = 0
+        t = ft
+        while t.is_forall():
+            n, t = n + 1, t.arg.body
+        if rng.random() < 0.15:
+            n = max(0, n + rng.choice([-1, 1]))
+        args = [rng.choice(insts) for _ in range(n)]
+        fact = Thm(hs, ft)
+        prems = []
+        try:
+            th = fact
+            for s_ in args:
+                th = Thm.forall_elim(s_, th)
+            As = th.prop.strip_implies()[0]
+            for A in As[:rng.randint(0, len(As))]:
+                prems.append(Thm(rng.choice([[], [b], [a]]), A))
+            if prems and rng.random() < 0.25:
+                i = rng.randrange(len(prems))
+                prems[i] = Thm([], rng.choice(props))
+            if rng.random() < 0.1:
+                prems.append(Thm([], a))
+        except Exception:  # noqa
+            prems = [Thm([], a)] if rng.random() < 0.5 else []
+        cases.append(("apply_fact_for", args, [fact] + prems))
+    # apply_theorem / apply_theorem_for on first-order monomorphic theorems: fewer premises than assumptions,
+    # partial instantiations, too many premises, a remaining variable free in a hypothesis
+    names = ("conjI", "conjD1", "conjD2", "disjI1", "disjI2", "disjE", "mp", "negE", "falseE", "trivial", "syllogism")
+    for nm in names:
+        try:
+            th = impl.theory.get_theorem(nm)
+        except Exception:  # noqa
+            continue
+        As, C = th.prop.strip_implies()
+        svs = th.prop.get_svars()
+        for _ in range(ctx.scale(8, 40)):
+            inst = Inst()
+            for v in svs:
+                if v.T == B and rng.random() < 0.6:
+                    inst[v.name] = rng.choice([a, b, c, And(a, b), Implies(a, b), SVar(v.name, B)])
+            try:
+                As2 = [A.subst(inst) for A in As]
+            except Exception:  # noqa
+                continue
+            k = rng.randint(0, len(As2) + (1 if rng.random() < 0.15 else 0))
+            prems = [Thm(rng.choice([[], [c], [SVar(svs[-1].name, B)] if svs else [c]]), As2[i] if i < len(As2) else a) for i in range(k)]
+            if prems and rng.random() < 0.15:
+                prems[rng.randrange(len(prems))] = Thm([], rng.choice([a, And(b, a), Implies(a, a)]))
+            cases.append(("apply_theorem", nm, prems))
+            cases.append(("apply_theorem_for", (nm, inst), prems))
+    nrun = nfail = 0
+    for (name, args, ths) in cases:
+        if time.time() - t0 > ctx.scale(12, 90):
+            break
+        try:
+            if name not in impl.theory.global_macros or not impl.theory.has_macro(name):
+                continue
+        except Exception:  # noqa
+            continue
+        nrun += 1
+        oracle.run_one(name, args, ths, {"stream": "macro-model"}, "generated")
+        try:
+            with time_limit(10):
+                impl.theory.global_macros[name]._c04_orig[0](args, ths)
+        except Exception:  # noqa
+            nfail += 1
+            oracle.mtie.maybe_add(name, args, ths, None)
+    ctx.log("generators macro-model: %d inputs (%d on which the real eval raises) in %.1fs; findings so far: %d"
+            % (nrun, nfail, time.time() - t0, len(oracle.found)))
+
+
 def run_generators(ctx, impl, oracle, mut):
     import time
     order = sorted(GEN_FAMILIES, key=lambda f: f[1])
@@ -2751,16 +2998,16 @@ MANIFEST = {
             "expansion branch: for every proof term whose nodes satisfy the constructor invariant the exported lines check, state exactly "
             "the root sequent (same conclusion, no added hypothesis) and cite only earlier lines / admissible lines (export_check, "
             "export_shared_sequent for every dictionary lookup that identifies only Thm.__eq__-equal sequents); for macros with the default "
-            "eval/expand and a parametric get_proof_term the checked expansion equals eval (default_eval_expand, and default_eval_expand_bare_premise for a proof term that is a premise unchanged, which expand restates); export_dag_lines_unique: for derivations that do not repeat a sequent along a path every sequent is exported at most once. Per-macro theorems on the shared kernel model (15 primitive rules, C01 checker model runScriptAx): macro_eval_eq_expand_trivial, _intros (assumption premises), _apply_theorem (first-order monomorphic theorem, type-complete instantiation without remaining schematic variables): whenever the modelled eval reports th and the checker model accepts the modelled expansion script, the last theorem of the script is th; plus trivial_eval_spec / intros_eval_spec (no hypotheses added). The macro registry "
+            "eval/expand and a parametric get_proof_term the checked expansion equals eval (default_eval_expand, and default_eval_expand_bare_premise for a proof term that is a premise unchanged, which expand restates); export_dag_lines_unique: for derivations that do not repeat a sequent along a path every sequent is exported at most once. Per-macro theorems on the shared kernel model (15 primitive rules, C01 checker model runScriptAx): macro_eval_eq_expand_trivial, _intros (assumption premises), _apply_theorem (first-order monomorphic theorem, type-complete instantiation without remaining schematic variables): whenever the modelled eval reports th and the checker model accepts the modelled expansion script, the last theorem of the script is th; plus trivial_eval_spec / intros_eval_spec (no hypotheses added). Further macro bodies inside the model (PropsMacro2.lean), same form of theorem: macro_eval_eq_expand_intros_vars (`intros` without exists arguments: `_VAR` declarations -> forall_intr and assumptions -> implies_intr in any order, all premises; introsVEval_extends: it extends the assumption-only model), macro_eval_eq_expand_apply_theorem_svars (`apply_theorem`, first-order monomorphic theorem, schematic variables may REMAIN and are generalised by forall_intr lines), macro_eval_eq_expand_apply_theorem_for (`apply_theorem_for` = the same class with with_inst, for EVERY matcher oracle started from the given instantiation), macro_eval_eq_expand_forall_elim_gen_partial (`forall_elim_gen`, under the explicit hypothesis that the instance is beta-normal; the evaluation is modelled in both branches) and macro_eval_eq_expand_apply_fact_for_partial (`apply_fact_for` with at least one argument, instantiated fact beta-normal and premises literally the assumptions). The macro registry "
             "(level, eval/expand/get_proof_term overrides) is regenerated from the sources and the lists of eval-overriding and of trusted "
             "(level 0) macros are pinned by `decide`. Per-macro agreement of eval and expansion is NOT proved: it is validated on every run by "
             "the real checker (check_level=0) on inputs harvested from the stored library proofs (incl. the nested steps of expansions), "
             "their mutations, per-family generators and the veriT rule generators.",
-    "note": "Partial: the bodies of the 144 macros are not modelled; 107 of them override eval, so for these agreement is evidence per input "
+    "note": "Partial: the bodies of most of the 144 macros are not modelled; 107 of them override eval, so for these agreement is evidence per input "
             "(counts per macro in evidence: inputs / eval ok / expansion produced / compared / agree; macros never reached are listed). "
             "Besides eval = checked expansion the oracle requires that an expansion cites only the premises given to that call (or its own "
             "earlier lines), has no gaps, that a proof term which is a cited premise unchanged can still be turned into proof lines (expansion-is-bare-premise), and that a macro above the default trust level produces an expansion on at least one of the DIRECTED (seed-independent: fixed random seed, run first) inputs on "
-            "which its eval succeeds. The macro models are tied to logic/logic.py on harvested and generated invocations through the driver (model eval vs real eval, model script vs the real exported lines rule by rule, model script run by runScriptAx vs real eval); all other macros (and the quantifier / exists / higher-order / polymorphic cases of these three) are validated per run only. Model tied to kernel/proofterm.py by differential runs of the compiled driver on harvested and synthetic proof terms (line "
+            "which its eval succeeds. The macro models (trivial, intros, intros with variables, apply_theorem, apply_theorem with remaining variables, apply_theorem_for, forall_elim_gen, apply_fact_for) are tied to logic/logic.py on harvested and generated invocations through the driver (model eval vs real eval, model script vs the real exported lines rule by rule, model script run by runScriptAx vs real eval), and on a directed stream of valid and near-miss inputs (variable free in a hypothesis, premise that is neither declaration nor assumption, too many premises, wrong number / type of instantiation arguments, premise that is not the assumption, redex-creating instances) on which the model evaluation must refuse exactly when the real eval raises. NOT proved (validated per run only): all other macros; the exists case of intros; trivial with quantifiers; the polymorphic and higher-order (beta-normalising) cases of apply_theorem(_for), theorems with hypotheses, an empty instantiation; the beta-normalising branches of forall_elim_gen / apply_fact_for and apply_fact_for without arguments; every macro that runs a conversion (beta_norm, rewrite_goal, rewrite_fact, rewrite_goal_with_prev, imp_conj, imp_disj, resolve_theorem, apply_fact) - their proof terms are trees of conversion steps whose export order and sharing are not modelled per macro. In the apply_theorem(_for) theorems the matcher's answer is an argument (any), and the type part of the instantiation must be complete (hypothesis htc). Model tied to kernel/proofterm.py by differential runs of the compiled driver on harvested and synthetic proof terms (line "
             "structure: ids, rules, citations, sequents; checker verdict with all macros evaluated) and on ItemID.can_depend_on. An input on "
             "which eval raises while an expansion exists is counted (no-evaluation), not a violation, for macros with their own eval. "
             "Trusted: Lean kernel + propext/Classical.choice/Quot.sound, the harness (recorder, mutators, generators, comparison), "
